@@ -63,6 +63,8 @@ func (h *H) injected() object.PanObject {
 		return object.NewNoPropErr("injected")
 	case "AssertionErr":
 		return object.NewAssertionErr("injected")
+	case "StopIterErr":
+		return object.NewStopIterErr("injected")
 	}
 	return object.NewValueErr("injected")
 }
